@@ -81,12 +81,12 @@ def main():
         if res.get("__status__") or res.get("fatal"):
             rep.violation("batch-failed", f"{res.get('fatal') or res.get('__status__')}", {"sources": [p[1] for p in b][:2]}, size=idx, ident="")
             continue
-        for (name, status, cmp), (_, text, feats, size) in zip(res["results"], b):
+        for (name, status, cmp), (_, text, feats, size, *_rest) in zip(res["results"], b):
             stats["programs"] += 1
             if status != "ok":
                 rep.feature_violation("harness:" + status.split(":")[0], set(feats), f"{status}; program:\n{text}", {"source": text}, size=size, text=text)
                 continue
-            for sid, var, tvals, ovals, unk, present in cmp:
+            for sid, var, tvals, ovals, unk, present, avals in cmp:
                 stats["definitions"] += 1
                 bad = c09.judge("cover", tvals, set(ovals), unk, present)
                 if bad is None:
